@@ -280,12 +280,11 @@ def encodeSackPermitted : TcpOpt := ⟨SACK_OK, 0, []⟩
 def encodeTimestamp (v r : Nat) : TcpOpt := ⟨TSOPT, 8, OutCursor.beBytes 4 v ++ OutCursor.beBytes 4 r⟩
 def encodeAltchecksum (v : Nat) : TcpOpt := ⟨ALTCHK, 1, [UInt8.ofNat (v % 256)]⟩
 
-/-- `TCP::sack(edges)`: the edges big-endian; the advertised length is `(uint8_t)value.size()` and only that many bytes
-    are copied into the option (`option(SACK, (uint8_t)value.size(), &value[0])`) -/
-def encodeSack (edges : List Nat) : TcpOpt :=
+/-- `TCP::sack(edges)`: the edges big-endian, `option(SACK, value.size(), &value[0])` (after "fix: TCP::sack truncated the
+    option length to 8 bits and silently dropped edges"); more than 65535 bytes: `option_payload_too_large` -/
+def encodeSack (edges : List Nat) : Out TcpOpt :=
   let value := edges.flatMap (OutCursor.beBytes 4)
-  let n := value.length % 256
-  ⟨SACK, n, value.take n⟩
+  if value.length > 65535 then .throw .optionPayloadTooLarge else .ok ⟨SACK, value.length, value⟩
 
 /-- set bit `k` of `f` to `v` (bit-field assignment `header_.flags.x = value`) -/
 def setBit (f k v : Nat) : Nat := f % 2 ^ k + (v % 2) * 2 ^ k + f / 2 ^ (k + 1) * 2 ^ (k + 1)
@@ -326,7 +325,9 @@ def apply (t : Tcp) : List String → Out Tcp
   | ["mss", v] => match natArg v with | some n => .ok (t.addOption (encodeMss (n % 65536))) | none => .throw .stdOther
   | ["winscale", v] => match natArg v with | some n => .ok (t.addOption (encodeWinscale n)) | none => .throw .stdOther
   | ["sack_permitted"] => .ok (t.addOption encodeSackPermitted)
-  | ["sack", v] => match edgesArg v with | some e => .ok (t.addOption (encodeSack e)) | none => .throw .stdOther
+  | ["sack", v] => match edgesArg v with
+    | some e => do let o ← encodeSack e; pure (t.addOption o)
+    | none => .throw .stdOther
   | ["timestamp", v, r] => match natArg v, natArg r with
     | some v, some r => .ok (t.addOption (encodeTimestamp (v % 4294967296) (r % 4294967296)))
     | _, _ => .throw .stdOther
